@@ -199,6 +199,10 @@ register(PropertySpec(
         Rule("MEMO-ON-PULL", _lazy("lazy", "rule_memo_on_pull"), 3,
              "(shared with C07) `the` abandons the domain at the second solution; the element it stopped on must already be "
              "memoised or re-evaluation sees a smaller domain"),
+        Rule("VAR-NULL-GUARD", the_rules.rule_var_null_guard, 1,
+             "self._var_ (None for set_of descriptors) is dereferenced only under a guard - sibling cross-check An / The"),
+        Rule("QUANTIFIER-KIND", the_rules.rule_quantifier_kind, 3,
+             "the()/an()/infer() return a quantifier of the requested kind on every path of the constructor function"),
         Rule("PROJECTION-SHARED", the_rules.rule_projection_shared, 3,
              "The.evaluate and An.evaluate turn the evaluated binding into the user value through the same "
              "_process_result_ implementation"),
@@ -239,6 +243,11 @@ register(PropertySpec(
     id="C12",
     title="a rule tree selects, per match, the conclusion ripple-down rules prescribe",
     rules=[
+        Rule("SELECTOR-NO-CACHE", _lazy("cacheidx", "rule_selector_no_cache"), 3,
+             "for every conclusion-selector class, every result-cache read in the evaluation generators it dispatches to "
+             "(own and inherited) is switched off: conclusions are a side effect of evaluating the operands"),
+        Rule("EVAL-STATE-RESET", _lazy("history", "rule_eval_state_reset"), 5,
+             "(shared with C04) the selectors' per-evaluation state (concluded_before, _conclusion_) is reset with the query"),
         Rule("TREE-SURGERY", ruletree.rule_tree_surgery, 2,
              "every function that wraps the current node in a conclusion selector: saves the node's parent, detaches, "
              "attaches the selector under the saved parent and - when that parent is a binary operator - re-points the "
@@ -324,6 +333,8 @@ register(PropertySpec(
         Rule("COVERAGE-AFTER-COMPLETION", history.rule_coverage_after_completion, 6,
              "(shared with C04) coverage recorded before completion is rolled back on every abnormal exit of a public "
              "entry: otherwise an abandoned evaluation makes cached and uncached results differ for ever"),
+        Rule("SELECTOR-NO-CACHE", cacheidx.rule_selector_no_cache, 3,
+             "conclusion selectors never serve rows from result caches"),
         Rule("CACHE-SWITCH", cacheidx.rule_cache_switch, 6,
              "every result-cache read in an evaluation generator is reachable only when is_caching_enabled() holds "
              "(truth table of its guards), given that writes are suppressed when caching is disabled"),
